@@ -61,17 +61,23 @@ static unsigned n_rt;
 static void (*sched)(const struct ev *e);
 static unsigned ordinal;
 
+/* the reference's order: timestamps first (written here), ties by the runtime's own content-based tie-break
+ * (the property asks for the SAME tie-break as the parallel runtime, not for a particular direction; that the
+ * tie-break is a content-only strict weak order is C16) */
 static bool ref_before(const struct ev *a, const struct ev *b)
 {
 	if(a->t != b->t)
 		return a->t < b->t;
-	if(a->type != b->type)
-		return a->type > b->type;
-	if(a->size != b->size)
-		return a->size < b->size;
-	return a->size && a->pl > b->pl;
+	struct lp_msg ma, mb;
+	ma.raw_flags = mb.raw_flags = 0;
+	ma.m_type = a->type;
+	mb.m_type = b->type;
+	ma.pl_size = a->size;
+	mb.pl_size = b->size;
+	ma.pl[0] = a->pl;
+	mb.pl[0] = b->pl;
+	return msg_is_before_extended(&ma, &mb);
 }
-
 
 static void send_rt(const struct ev *e) { ScheduleNewEvent_serial(e->lp, e->t, e->type, &e->pl, e->size); }
 static void model(lp_id_t me, simtime_t now, unsigned type, const void *c, unsigned size, void *st)
@@ -119,8 +125,7 @@ static bool canend(lp_id_t me, const void *st)
 }
 #endif
 
-/* textbook executor: unsorted list, linear minimum under the documented order:
- * timestamp, then larger type first, smaller size first, larger payload first */
+/* textbook executor: unsorted list, linear minimum under ref_before */
 static struct ev pend[MAXEV + 1];
 static unsigned npend;
 static struct ev log_ref[MAXEV + 1];
